@@ -161,7 +161,7 @@ func init() {
 			"MERGE inputs are null-free",
 		},
 	}
-	for _, o := range AllDiffOpts {
+	for _, o := range append(append([]OptSet{}, AllDiffOpts...), OptKeysMerge) {
 		o := o
 		p.Strata = append(p.Strata, mon.Stratum{
 			Name: "random/" + o.Name,
